@@ -83,6 +83,9 @@ func newWorld(p *Plan, want []string, logw io.Writer) *World {
 	}
 	w.t0 = time.Now()
 	w.async = !p.SyncVerify
+	if p.knob("memoVerify", 0) == 1 {
+		w.memo = map[[32]byte]memoVerdict{}
+	}
 	w.driverGID = goid()
 	w.ctx, w.cancel = context.WithCancel(context.Background())
 	w.net = &netState{linkDown: map[[2]int]time.Duration{}, sent: map[[2]int]uint64{}}
